@@ -1205,6 +1205,25 @@ class Engine:
 		yield st, NORMAL
 
 	def x_Delete(self, node, st):
+		if len(node.targets) == 1 and isinstance(node.targets[0], ast.Subscript):
+			t = node.targets[0]
+			for s2, vs in self.ev_list([t.value, t.slice], st):
+				if isinstance(vs, Raised):
+					yield s2, Outcome('raise', vs)
+					continue
+				obj, key = vs
+				c = s2.deref(obj)
+				if isinstance(c, dict) and not is_sym(key) and isinstance(obj, Ref):
+					if key not in c:
+						yield s2, Outcome('raise', Raised('KeyError'))
+						continue
+					nc = dict(c)
+					del nc[key]
+					s2.heap[obj.addr] = nc
+					yield s2, NORMAL
+					continue
+				raise Unsupported('del on a non-concrete container')
+			return
 		raise Unsupported('del statement')
 
 	# ---- expressions -------------------------------------------------------------------------
@@ -1588,6 +1607,10 @@ class Engine:
 				if attr in c.fields:
 					yield st, c.fields[attr]
 					return
+				ca = self._class_attr(st, c.cls, attr)
+				if ca is not None:
+					yield st, ca[0]
+					return
 				yield st, BoundMethod(obj, attr)
 				return
 			if isinstance(c, SArr) and attr == 'shape':
@@ -1611,6 +1634,28 @@ class Engine:
 			yield st, BoundMethod(obj, attr)
 			return
 		raise Unsupported(f'attribute {attr} of {obj!r} (line {getattr(node, "lineno", "?")})')
+
+	def _class_attr(self, st, clsname, attr, depth=0):
+		"""value of a class-level assignment (e.g. a column table), searched along the bases; None if there is none"""
+		if depth > 6 or not clsname.startswith('gambit.'):
+			return None
+		try:
+			mod, cls = self.repo.classinfo(clsname)
+		except Unsupported:
+			return None
+		for n in cls.body:
+			if isinstance(n, ast.Assign) and len(n.targets) == 1 and isinstance(n.targets[0], ast.Name) and n.targets[0].id == attr:
+				try:
+					return (mod._const_eval(n.value),)
+				except Unsupported:
+					return None
+		for b in cls.bases:
+			bn = ast.unparse(b)
+			if bn in mod.classes:
+				r = self._class_attr(st, f'{mod.qualname}.{bn}', attr, depth + 1)
+				if r is not None:
+					return r
+		return None
 
 	def store_attr(self, st, obj, attr, v, node):
 		if isinstance(obj, Ref) and isinstance(st.heap[obj.addr], Record):
@@ -2371,6 +2416,39 @@ class Engine:
 
 	def e_SetComp(self, node, st):
 		yield from self._comp(node, st, 'set')
+
+	def e_DictComp(self, node, st):
+		if len(node.generators) != 1 or node.generators[0].ifs:
+			raise Unsupported('dict comprehension with filters / several loops')
+		g = node.generators[0]
+		for s2, it in self.ev(g.iter, st):
+			if isinstance(it, Raised):
+				yield s2, it
+				continue
+			itv = s2.deref(it)
+			if isinstance(itv, ConcreteIter):
+				itv = itv.items
+			if not isinstance(itv, (list, tuple)):
+				raise Unsupported('dict comprehension over a symbolic sequence')
+			states = [(s2, {})]
+			for x in itv:
+				nxt = []
+				for s, acc in states:
+					for s3, r in self.assign(g.target, x, s):
+						for s4, kv in self.ev_list([node.key, node.value], s3):
+							if isinstance(kv, Raised):
+								yield s4, kv
+								continue
+							if is_sym(kv[0]):
+								raise Unsupported('dict comprehension with symbolic keys')
+							d2 = dict(acc)
+							d2[kv[0]] = kv[1]
+							nxt.append((s4, d2))
+				states = nxt
+			for s, acc in states:
+				r = Ref('dict')
+				s.heap[r.addr] = acc
+				yield s, r
 
 	def _comp(self, node, st, kind):
 		if len(node.generators) != 1:
